@@ -21,10 +21,10 @@ theorem C03_commit_ts_fresh (d : Db) (id mts ts : Nat) (hm : d.opts.managed = fa
   simp only [commitTsOf, hm, Bool.false_eq_true, if_false] at hts this
   exact ⟨hts, this⟩
 
-/-- No operation decreases `nextTxnTs`, and none changes the options. -/
+/-- No operation decreases `nextTxnTs`, and none switches the timestamp mode. -/
 theorem C03_nextTs_monotone (d : Db) (ops : List Op) :
-    d.nextTs ≤ (d.run ops).nextTs ∧ (d.run ops).opts = d.opts :=
-  ⟨run_nextTs_ge d ops, run_opts d ops⟩
+    d.nextTs ≤ (d.run ops).nextTs ∧ (d.run ops).opts.managed = d.opts.managed :=
+  ⟨run_nextTs_ge d ops, (run_opts d ops).1⟩
 
 /-- Commit timestamps strictly increase along any operation sequence (normal mode): a commit
     answered `ts1`, then any operations, then a commit answered `ts2` ⟹ `ts1 < ts2`. In
@@ -35,7 +35,7 @@ theorem C03_commit_ts_strictly_increasing (d : Db) (id1 m1 ts1 : Nat) (ops : Lis
     (h2 : (((d.commit id1 m1).1.run ops).commit id2 m2).2 = .ok ts2) : ts1 < ts2 := by
   obtain ⟨e1, e2⟩ := C03_commit_ts_fresh d id1 m1 ts1 hm h1
   have hm' : ((d.commit id1 m1).1.run ops).opts.managed = false := by
-    rw [run_opts, commit_opts]; exact hm
+    rw [(run_opts _ ops).1, commit_opts]; exact hm
   obtain ⟨e3, -⟩ := C03_commit_ts_fresh _ id2 m2 ts2 hm' h2
   have := run_nextTs_ge (d.commit id1 m1).1 ops
   omega
